@@ -184,6 +184,21 @@ func newTracker(bs []schedBlock) *u.CachingScheduleTracker {
 	return &cs
 }
 
+// newTrackerIncremental feeds the summaries like a caller that asks for a schedule while the
+// chain grows: GenerateCachingSchedule is also called after every other block (results
+// dropped), so state kept between calls (memoised ttl tables, cursors) must stay right when
+// more summaries arrive.
+func newTrackerIncremental(bs []schedBlock, limit int) *u.CachingScheduleTracker {
+	cs := u.NewCachingScheduleTracker(len(bs))
+	for i, b := range bs {
+		cs.AddBlockSummary(copyU64(b.targets), uint16(b.numAdds))
+		if i%2 == 0 && i+1 < len(bs) {
+			cs.GenerateCachingSchedule(limit)
+		}
+	}
+	return &cs
+}
+
 // emitSchedule feeds the recorded summaries to a tracker and prints the tracker state after
 // genTTLs and the schedule for every limit.
 func emitSchedule(bs []schedBlock, limits []int) {
@@ -232,6 +247,9 @@ func emitSchedule(bs []schedBlock, limits []int) {
 			t := shared
 			if t == nil || k%3 == 2 {
 				t = newTracker(bs)
+				shared = t
+			} else if k%3 == 1 {
+				t = newTrackerIncremental(bs, limit)
 				shared = t
 			}
 			sch = t.GenerateCachingSchedule(limit)
